@@ -26,6 +26,7 @@ func Warm() {
 }
 
 type call struct {
+	cycle int
 	name  string
 	err   error
 	start int
@@ -40,6 +41,7 @@ type Scenario struct {
 	Concurrent bool
 	Cycles     []int
 	Faults     bool // C13: errors are expected when a fault was injected
+	Continue   bool // after a failing call the cycle is abandoned, the sorter cleared and the next cycle run (C13: a failure in a later cycle must surface as well)
 	After      int  // > 0: another sorter with this (larger) chunk size is used for one in-memory cycle and cleaned up first
 }
 
@@ -55,6 +57,9 @@ func (s Scenario) Name() string {
 	after := ""
 	if s.After > 0 {
 		after = fmt.Sprintf("-after%d", s.After)
+	}
+	if s.Continue {
+		after += "-continue"
 	}
 	return fmt.Sprintf("sort-%s-chunk%d-push%s%s", mode, s.Chunk, strings.Join(cs, "+"), after)
 }
@@ -81,8 +86,9 @@ func (s Scenario) Mk() vrt.Run {
 	var pulled [][]int
 	var pushed [][]int
 	var newErr error
+	cycle := 0
 	do := func(name string, f func() error) error {
-		c := call{name: name, start: vrt.Now()}
+		c := call{cycle: cycle, name: name, start: vrt.Now()}
 		c.err = f()
 		c.end = vrt.Now()
 		calls = append(calls, c)
@@ -110,33 +116,41 @@ func (s Scenario) Mk() vrt.Run {
 		}
 		defer m.CleanUp()
 		base := 0
-		for ci, n := range s.Cycles {
-			pushed = append(pushed, nil)
-			pulled = append(pulled, nil)
+		// one cycle; false when a call failed
+		run := func(ci, n int) bool {
 			for i := n; i > 0; i-- {
 				v := base + i
 				if do("Push", func() error { return m.Push(IV(v)) }) != nil {
-					return
+					return false
 				}
 				pushed[ci] = append(pushed[ci], v)
 			}
-			base += 10
 			if do("Finalise", func() error { return m.Finalise() }) != nil {
-				return
+				return false
 			}
 			for {
 				var v IV
 				err := do("Pull", func() error { return m.Pull(&v) })
 				if err == io.EOF {
-					break
+					return true
 				}
 				if err != nil {
-					return
+					return false
 				}
 				pulled[ci] = append(pulled[ci], int(v))
 				if len(pulled[ci]) > n+2 {
-					return
+					return false
 				}
+			}
+		}
+		for ci, n := range s.Cycles {
+			cycle = ci
+			pushed = append(pushed, nil)
+			pulled = append(pulled, nil)
+			ok := run(ci, n)
+			base += 10
+			if !ok && !s.Continue {
+				return
 			}
 			if ci < len(s.Cycles)-1 {
 				if do("Clear", func() error { return m.Clear() }) != nil {
@@ -164,6 +178,39 @@ func (s Scenario) Mk() vrt.Run {
 		}
 		if newErr != nil {
 			return "", "", "new-failed"
+		}
+		if s.Continue {
+			// per cycle: a fault injected while the cycle's calls were running must surface in that cycle;
+			// a cycle whose calls all succeeded delivers exactly its values
+			for ci := range pushed {
+				first, last, failed := -1, -1, false
+				for _, c := range calls {
+					if c.cycle != ci || c.name == "Clear" {
+						continue
+					}
+					if first < 0 {
+						first = c.start
+					}
+					last = c.end
+					if c.err != nil && c.err != io.EOF {
+						failed = true
+					}
+				}
+				for _, fs := range r.FaultSteps {
+					if first >= 0 && fs >= first && fs < last && !failed {
+						f := r.Trace[fs]
+						return "fault-hidden/" + f.Op, fmt.Sprintf("cycle %d: injected fault at step %d (%s) but every Push/Finalise/Pull of the cycle returned success; pulled=%v pushed=%v", ci, fs, f, pulled, pushed), sig
+					}
+				}
+				if !failed {
+					want := append([]int(nil), pushed[ci]...)
+					sort.Ints(want)
+					if fmt.Sprint(want) != fmt.Sprint(pulled[ci]) && first >= 0 {
+						return "wrong-values", fmt.Sprintf("every call of cycle %d succeeded but it pulled %v, want %v", ci, pulled[ci], want), sig
+					}
+				}
+			}
+			return "", "", sig
 		}
 		lastEnd := 0
 		if len(calls) > 0 {
